@@ -180,6 +180,14 @@ def run(R):
     layouts = []
     for li in range(nlay):
         L = (DD if li % 2 == 0 else ELF)(R, li)
+        if li == 1:
+            # corpus: a minimised past failure runs first (zero-filesz segment with an unaligned start)
+            L.segs = [dict(paddr=12287, filesz=16383, memsz=16383, voff=0xffff880000000000),
+                      dict(paddr=30720, filesz=0, memsz=12287, voff=0xffff880000000000),
+                      dict(paddr=57343, filesz=1024, memsz=2048, voff=0xffff880000000000)]
+            L.top = 16
+            L.file, L.mem = {2, 3, 4, 5, 6, 13, 14}, {2, 3, 4, 5, 6, 7, 8, 9, 10, 13, 14}
+            dumpgen.write_elf(L.paths[0], L.segs, ps=PS)
         layouts.append(L)
         lines += [L.open_line()] + L.layout_lines()
         meta += [None] * (1 + len(L.layout_lines()))
